@@ -289,14 +289,24 @@ class NodeBlock:
     def evaluate(self, environment):
         result = TRUE
         try:
-            for expression in self.expressions:
-                result = expression.evaluate(environment)
-                if result.isReturn():
-                    break
-                if result.isBreak():
-                    break
-                if result.isContinue():
-                    break
+            try:
+                for expression in self.expressions:
+                    result = expression.evaluate(environment)
+                    if result.isReturn():
+                        break
+                    if result.isBreak():
+                        break
+                    if result.isContinue():
+                        break
+            except RecursionError:
+                # the host stack was exhausted outside a function call
+                # (hashing or comparing a very deep value): this block's
+                # handlers see it like any other runtime error
+                raise CklRuntimeError(
+                    ValueString("ERROR"),
+                    "Maximum recursion depth exceeded",
+                    self.pos,
+                )
         except CklRuntimeError as e:
             for err, expr in self.catchexprs:
                 if not err or e.value == err.evaluate(environment):
